@@ -203,3 +203,48 @@ def absorb_selection(doc):
                 return (f'absorb(source={tree}, {key}={rules}) exposed {sorted(got)}; the rules select {sorted(want)} '
                         f'(extra {sorted(got - want)}, missing {sorted(want - got)})')
     return None
+
+
+def absorb_independent(doc):
+    """independence of an exposed nested namespace: adding a port to the source afterwards must not show in the copy"""
+    from plumpy.ports import InputPort, PortNamespace
+
+    for kw in ({}, {'include': ['a']}, {'exclude': ['c']}, {'include': ['a.b']}):
+        tree = {'a': {'b': {'c': None}, 'x': None}, 'c': None}
+        src = _build_ns(tree)
+        dst = PortNamespace('dst')
+        dst.absorb(src, **kw)
+        before = _paths(dst)
+        src['a']['late'] = InputPort('late')
+        src['a']['b']['late2'] = InputPort('late2')
+        after = _paths(dst)
+        if before != after:
+            return f'absorb(source, {kw}) shares nested port dictionaries with the source: later additions {sorted(after - before)} show through'
+        if 'a' in dst and dst['a'].ports is src['a'].ports:
+            return f'absorb(source, {kw}): exposed namespace `a` shares its port dictionary with the source'
+    return None
+
+
+def strip_namespace_spec(doc):
+    """PortNamespace.strip_namespace against DESIGN D.4: the rules strictly below namespace+separator, stripped of
+    exactly that prefix, in order.  Counter-model inputs first, then a small grid."""
+    from plumpy.ports import PortNamespace
+
+    def want(ns, sep, rules):
+        if rules is None:
+            return None
+        p = ns + sep
+        return [r[len(p):] for r in rules if r.startswith(p)]
+
+    inp = _inputs(doc)
+    cases = []
+    if isinstance(inp.get('namespace'), str) and isinstance(inp.get('separator'), str) and isinstance(inp.get('rules'), (list, tuple)) \
+            and all(isinstance(x, str) for x in inp['rules']):
+        cases.append((inp['namespace'], inp['separator'], list(inp['rules'])))
+    cases += [('base', '.', ['base.a', 'base.sub.b', 'relax.base.c', 'd', 'base2.z', 'base']),
+              ('a', '.', ['a.b.c', 'a.b', 'ab.c', 'a']), ('ns', '.', None), ('x', '.', [])]
+    for ns, sep, rules in cases:
+        got = PortNamespace.strip_namespace(ns, sep, rules)
+        if got != want(ns, sep, rules):
+            return f'strip_namespace({ns!r}, {sep!r}, {rules!r}) = {got!r}, the rules below the namespace are {want(ns, sep, rules)!r}'
+    return None
